@@ -90,7 +90,7 @@ replay = sc.src_generic_replay
 
 META = {
     'technique': 'TLC-enumerated factory parameters executed in OpsSources.tla (scheduler-recursive producer checked against closed-form / unrolled-loop references) and replayed on the real factories on TestScheduler and HistoricalScheduler',
-    'level': 'OpsSources.tla states each factory twice - as the rescheduling producer and as a reference (Python range as a length formula and as a membership set, generate as the unrolled while-loop, generate_with_relative_time as "each state after the delay computed for it, zero included", timers as d + i*p, never as no action) - TLC checks agreement plus grammar / untimed-at-subscription / never-silent invariants and exports every scenario with its timed output; each is run on the real factory in every call form (positional / keyword, list / tuple / generator / of / from_, relative / absolute / timedelta times, scheduler given to the factory or to subscribe) on TestScheduler, HistoricalScheduler and VirtualTimeScheduler and must match on values, instants and terminal. Exhaustive for the stated bounds.',
+    'level': 'OpsSources.tla states each factory twice - as the rescheduling producer and as a reference (Python range as a length formula and as a membership set, generate as the unrolled while-loop, generate_with_relative_time as "each state after the delay computed for it, zero included", timers as d + i*p, never as no action) - TLC checks agreement plus grammar / untimed-at-subscription / never-silent invariants and exports every scenario with its timed output; each is run on the real factory in every call form (positional / keyword, list / tuple / generator / of / from_, relative / absolute / timedelta times, scheduler given to the factory or to subscribe) on TestScheduler, HistoricalScheduler and VirtualTimeScheduler and must match on values, instants and terminal; each is also run with a second subscriber on the same observable object (overlapping by 1 and 2 ticks, and after a mid-stream dispose of the first), every subscriber judged against the expectation shifted to its own subscription instant. Exhaustive for the stated bounds.',
     'note': 'TLC 1.8; codec of props/seq_common.py (state / value tokens incl. falsy profile, ticks to float or datetime clocks); virtual-time schedulers (C28)',
     'ref': 'DESIGN.md 6 C37, App. C',
 }
